@@ -295,7 +295,21 @@ Theorem C20_refuted_sel_name_clash :
   generated_and (generate_s schemaK8 (doc_valid schemaK8 docK8) docK8) (fun p => negb (wf_program p)) = true.
 Proof. exact refuted_sel_name_clash. Qed.
 
+(** known finding blank-field-name: a fragment (type, type condition) named "_" is a valid GraphQL name
+    whose struct field is the blank identifier; it is exactly outside [lex_names] (the other two
+    conditions of the residue hold on the witness) and the generator's output for it is not well formed *)
+Theorem C20_blank_member_outside_residue : forall S d, blank_member S d = true -> lex_names S d = false.
+Proof. exact blank_member_not_lex. Qed.
+
+Theorem C20_refuted_blank_field_name :
+  env ex_schema docK11 = true /\ blank_member ex_schema docK11 = true /\
+  no_sel_names ex_schema docK11 = true /\ no_digit_types ex_schema = true /\ lex_names ex_schema docK11 = false /\
+  generated_and (generate_s ex_schema (doc_valid ex_schema docK11) docK11) (fun p => negb (wf_program p)) = true.
+Proof. exact refuted_blank_field_name. Qed.
+
 Print Assumptions C20_gen_wf.
+Print Assumptions C20_blank_member_outside_residue.
+Print Assumptions C20_refuted_blank_field_name.
 Print Assumptions C20_decl_safe_sufficient.
 Print Assumptions C20_load_type_roundtrip.
 Print Assumptions C20_load_schema_roundtrip.
